@@ -31,7 +31,7 @@ VARIABLES l,        \* next line
 tvars == <<vars, l, cid, mon, viol, ndiv, divs, dflag, ncases>>
 
 Mon0 == [runs |-> 0, got |-> 0, refs |-> 1, lv |-> 0, lc |-> 0,
-         thenDone |-> FALSE, finDone |-> FALSE, finVal |-> 0, due |-> FALSE, ctx |-> "alive"]
+         thenDone |-> FALSE, finDone |-> FALSE, finVal |-> 0, due |-> FALSE, ctx |-> "alive", selfReg |-> FALSE]
 
 TInit ==
     /\ Init /\ kind = "void"
@@ -50,7 +50,7 @@ ModelAct(ev) ==
       [] ev.e = "DropTask"    -> DropTask
       [] ev.e = "DestroyCtx"  -> DestroyCtx
       [] ev.e = "DropAll"     -> DropAll
-      [] ev.e = "Then"        -> Then(ev.b)
+      [] ev.e = "Then"        -> Then(ev.b, ev.sc)
       [] ev.e = "Finish"      -> Finish(ev.v, ev.b)
       [] OTHER                -> FALSE
 
@@ -67,14 +67,16 @@ MonNext(m, ev) ==
         thenDone |-> td, finDone |-> fd,
         finVal |-> IF isFin THEN ev.v ELSE m.finVal,
         due |-> m.due \/ (later /\ m.ctx = "alive"),
-        ctx |-> o.ctx]
+        ctx |-> o.ctx,
+        \* a self-capturing continuation was registered (then() before finish())
+        selfReg |-> m.selfReg \/ (isThen /\ ev.sc /\ ~m.finDone)]
 
 Failed(m, n) ==
     {p \in {"AtMostOnce", "ValueSeen", "ExactlyOnce", "Released", "NoRunAfterDeath"} :
         CASE p = "AtMostOnce"  -> ~P_AtMostOnce(n.runs)
           [] p = "ValueSeen"   -> ~P_Value(n.runs, n.got, n.finVal)
           [] p = "ExactlyOnce" -> ~P_ExactlyOnce(n.runs, n.due)
-          [] p = "Released"    -> ~P_Released(n.refs, n.lv, n.lc)
+          [] p = "Released"    -> ~P_Released(n.refs, n.selfReg /\ n.runs = 0, n.lv, n.lc)
           [] p = "NoRunAfterDeath" -> m.ctx = "dead" /\ n.runs # m.runs}
 
 ResetStep(ev) ==
